@@ -92,57 +92,86 @@ def n_syntax_errors(n):
     return wrap(''.join('ENTITY e%d; a : ; END_ENTITY;\n' % i for i in range(n)))
 
 
+def size_label(family, n, limits):
+    """Key label of a sized shape: sizes are bucketed at the documented limits of the family (limits ascending), so that all
+    sizes on the same side of a fixed table's limit share one key and a probe just below the limit keeps its own."""
+    lo = None
+    for l in limits:
+        if n < l:
+            return '%s of %s chars' % (family, ('%d to %d' % (lo, l - 1)) if lo is not None else 'up to %d' % (l - 1))
+        lo = l
+    return '%s of %d chars or more' % (family, lo)
+
+
 def shapes(tier, warnings=('all', 'none')):
-    """-> list of (name, construct, text|bytes, tools, args)."""
+    """-> list of (label, construct, text|bytes|None, tools, args, name).  `label x construct` starts the key; name is the
+    exact shape (with its size) for the evidence and the `what`."""
     S = []
 
-    def add(name, construct, text, tools=ALL, args=()):
-        S.append((name, construct, text, tuple(tools), tuple(args)))
+    def add(name, construct, text, tools=ALL, args=(), label=None):
+        S.append((label or name, construct, text, tuple(tools), tuple(args), name))
     X = lambda n: 'x' * n
-    # remarks
-    for n in (255, 256, 257, 10 ** 4, 10 ** 5):
-        add('tail remark of %d chars' % n, 'after semicolon', wrap(ent()) .replace('a : INTEGER;', 'a : INTEGER; --' + X(n - 2)))
-        add('tail remark of %d chars' % n, 'own line', wrap('--' + X(n - 2) + '\n' + ent()))
-        add('embedded remark of %d chars' % n, 'between declarations', wrap('(*' + X(n - 4) + '*)\n' + ent()))
-        add('embedded remark of %d chars' % n, 'after semicolon', wrap(ent()).replace('a : INTEGER;', 'a : INTEGER; (*' + X(n - 4) + '*)'))
-    add('tail remark of 300 chars', 'last line without newline', wrap(ent()).rstrip('\n') + ' --' + X(298))
-    add('embedded remark unterminated', 'end of file', wrap(ent()) + '(* never closed ' + X(1000))
+    # remarks: last_comment_[256] holds remark + newline + NUL -> limit 255
+    for n in (100, 254, 255, 256, 257, 10 ** 4, 10 ** 5):
+        lt = size_label('tail remark', n, (255,))
+        le = size_label('embedded remark', n, (255,))
+        add('tail remark of %d chars' % n, 'after semicolon', wrap(ent()) .replace('a : INTEGER;', 'a : INTEGER; --' + X(n - 2)), label=lt)
+        add('tail remark of %d chars' % n, 'own line', wrap('--' + X(n - 2) + '\n' + ent()), label=lt)
+        add('embedded remark of %d chars' % n, 'between declarations', wrap('(*' + X(n - 4) + '*)\n' + ent()), label=le)
+        add('embedded remark of %d chars' % n, 'after semicolon', wrap(ent()).replace('a : INTEGER;', 'a : INTEGER; (*' + X(n - 4) + '*)'), label=le)
+    add('tail remark of 300 chars', 'end of file without newline', wrap(ent()).rstrip('\n') + ' --' + X(298), label='token cut by end of file')
+    add('tail remark of 30 chars', 'end of file without newline', wrap(ent()).rstrip('\n') + ' --' + X(28), label='token cut by end of file')
+    add('tail remark on own line', 'end of file without newline', wrap(ent()) + '-- the end', label='token cut by end of file')
+    add('embedded remark unterminated', 'end of file', wrap(ent()) + '(* never closed ' + X(1000), label='token cut by end of file')
+    add('string literal unterminated', 'end of file', wrap("CONSTANT\n  c : STRING := 'abc", 'q'), label='token cut by end of file')
+    add('encoded string literal unterminated', 'end of file', wrap('CONSTANT\n  c : STRING := "0000', 'q'), label='token cut by end of file')
     add('embedded remark of 10000 lines', 'between declarations', wrap('(*' + 'line\n' * 10 ** 4 + '*)\n' + ent()))
-    # literals
-    for n in (10 ** 4, 10 ** 5):
-        add('string literal of %d chars' % n, 'constant', wrap("CONSTANT\n  c : STRING := '%s';\nEND_CONSTANT;\n" % X(n) + ent()))
-        add('string literal of %d chars' % n, 'where rule', wrap(ent("WHERE\n  wr1 : SELF.a > LENGTH('%s');\n" % X(n))))
-        add('binary literal of %d digits' % n, 'constant', wrap('CONSTANT\n  c : BINARY := %%%s;\nEND_CONSTANT;\n' % ('10' * (n // 2)) + ent()))
-        add('encoded string literal of %d digits' % n, 'constant', wrap('CONSTANT\n  c : STRING := "%s";\nEND_CONSTANT;\n' % ('00000041' * (n // 8)) + ent()))
-        add('integer literal of %d digits' % n, 'constant', wrap('CONSTANT\n  c : INTEGER := %s;\nEND_CONSTANT;\n' % ('7' * n) + ent()))
-        add('real literal of %d digits' % n, 'constant', wrap('CONSTANT\n  c : REAL := 1.%sE+%s;\nEND_CONSTANT;\n' % ('3' * n, '9' * 30) + ent()))
+    # literals: exppp formats every fragment into char buf[10000]
+    for n in (9000, 10 ** 4, 10 ** 5):
+        lim = (9990,)
+        add('string literal of %d chars' % n, 'constant', wrap("CONSTANT\n  c : STRING := '%s';\nEND_CONSTANT;\n" % X(n) + ent()),
+            label=size_label('string literal', n, lim))
+        add('string literal of %d chars' % n, 'where rule', wrap(ent("WHERE\n  wr1 : SELF.a > LENGTH('%s');\n" % X(n))),
+            label=size_label('string literal', n, lim))
+        add('binary literal of %d digits' % n, 'constant', wrap('CONSTANT\n  c : BINARY := %%%s;\nEND_CONSTANT;\n' % ('10' * (n // 2)) + ent()),
+            label=size_label('binary literal', n, lim))
+        add('encoded string literal of %d digits' % n, 'constant', wrap('CONSTANT\n  c : STRING := "%s";\nEND_CONSTANT;\n' % ('00000041' * (n // 8)) + ent()),
+            label=size_label('encoded string literal', n, lim))
+        add('integer literal of %d digits' % n, 'constant', wrap('CONSTANT\n  c : INTEGER := %s;\nEND_CONSTANT;\n' % ('7' * n) + ent()),
+            label=size_label('integer literal', n, lim))
+        add('real literal of %d digits' % n, 'constant', wrap('CONSTANT\n  c : REAL := 1.%sE+%s;\nEND_CONSTANT;\n' % ('3' * n, '9' * 30) + ent()),
+            label=size_label('real literal', n, lim))
     add('string literal unterminated', 'constant', wrap("CONSTANT\n  c : STRING := 'abc;\nEND_CONSTANT;\n" + ent()))
     add('string literal of 10000 quote pairs', 'constant', wrap("CONSTANT\n  c : STRING := '%s';\nEND_CONSTANT;\n" % ("''" * 10 ** 4) + ent()))
-    # identifiers
-    for n in (8191, 8192, 10 ** 5):
-        add('identifier of %d chars' % n, 'entity name', wrap('ENTITY %s;\n  a : INTEGER;\nEND_ENTITY;\n' % X(n)))
-        add('identifier of %d chars' % n, 'attribute name', wrap('ENTITY e;\n  %s : INTEGER;\nEND_ENTITY;\n' % X(n)))
-        add('identifier of %d chars' % n, 'schema name', 'SCHEMA %s;\n%sEND_SCHEMA;\n' % (X(n), ent()))
-        add('identifier of %d chars' % n, 'undefined type reference', wrap('ENTITY e;\n  a : %s;\nEND_ENTITY;\n' % X(n)))
-        add('identifier of %d chars' % n, 'enumeration item', wrap('TYPE t = ENUMERATION OF (%s, b);\nEND_TYPE;\n' % X(n) + ent()))
-        add('identifier of %d chars' % n, 'function name', wrap('FUNCTION %s(n : INTEGER) : INTEGER;\n  RETURN (n);\nEND_FUNCTION;\n' % X(n) + ent()))
-        add('identifier of %d chars' % n, 'where label', wrap(ent('WHERE\n  %s : SELF.a > 0;\n' % X(n))))
-    # nesting
-    for d in (19, 20, 21, 100):
-        add('%d nested FUNCTIONs' % d, 'function', wrap(nested_functions(d) + ent()))
-        add('%d nested PROCEDUREs' % d, 'procedure', wrap(nested_procedures(d) + ent()))
-        add('%d nested QUERYs' % d, 'function body', wrap(nested_query(d) + ent()))
-        add('%d nested REPEATs' % d, 'function body', wrap(nested_repeat(d) + ent()))
-        add('%d nested ALIASes' % d, 'function body', wrap(nested_alias(d) + ent()))
-        add('%d nested IFs' % d, 'function body', wrap(nested_if(d) + ent()))
-        add('%d nested parentheses' % d, 'expression', wrap(nested_parens(d) + ent()))
-        add('%d nested aggregate initializers' % d, 'expression', wrap(nested_aggr_init(d) + ent()))
-        add('%d nested aggregate types' % d, 'type', nested_brackets(d))
-        add('%d nested remarks' % d, 'between declarations', wrap(nested_remark(d) + '\n' + ent()))
+    # identifiers: MAX_LEN 240 name buffers (prefix included) and 255-char file names in the generators, BUFSIZ (8192) buffers elsewhere
+    for n in (200, 239, 240, 1000, 8191, 8192, 10 ** 5):
+        li = size_label('identifier', n, (230, 8191))
+        add('identifier of %d chars' % n, 'entity name', wrap('ENTITY %s;\n  a : INTEGER;\nEND_ENTITY;\n' % X(n)), label=li)
+        add('identifier of %d chars' % n, 'attribute name', wrap('ENTITY e;\n  %s : INTEGER;\nEND_ENTITY;\n' % X(n)), label=li)
+        add('identifier of %d chars' % n, 'schema name', 'SCHEMA %s;\n%sEND_SCHEMA;\n' % (X(n), ent()), label=li)
+        add('identifier of %d chars' % n, 'undefined type reference', wrap('ENTITY e;\n  a : %s;\nEND_ENTITY;\n' % X(n)), label=li)
+        add('identifier of %d chars' % n, 'defined type name', wrap('TYPE %s = INTEGER;\nEND_TYPE;\n' % X(n) + ent()), label=li)
+        add('identifier of %d chars' % n, 'select type name', wrap(ent() + 'TYPE %s = SELECT (e);\nEND_TYPE;\n' % X(n)), label=li)
+        add('identifier of %d chars' % n, 'enumeration item', wrap('TYPE t = ENUMERATION OF (%s, b);\nEND_TYPE;\n' % X(n) + ent()), label=li)
+        add('identifier of %d chars' % n, 'function name', wrap('FUNCTION %s(n : INTEGER) : INTEGER;\n  RETURN (n);\nEND_FUNCTION;\n' % X(n) + ent()), label=li)
+        add('identifier of %d chars' % n, 'where label', wrap(ent('WHERE\n  %s : SELF.a > 0;\n' % X(n))), label=li)
+    # nesting: the parser's scopes[20]
+    for d in (10, 17, 18, 19, 20, 21, 100):
+        lab = lambda what: ('%d or more nested %s' % (18, what)) if d >= 18 else ('up to 17 nested %s' % what)
+        add('%d nested FUNCTIONs' % d, 'function', wrap(nested_functions(d) + ent()), label=lab('FUNCTIONs'))
+        add('%d nested PROCEDUREs' % d, 'procedure', wrap(nested_procedures(d) + ent()), label=lab('PROCEDUREs'))
+        add('%d nested QUERYs' % d, 'function body', wrap(nested_query(d) + ent()), label=lab('QUERYs'))
+        add('%d nested REPEATs' % d, 'function body', wrap(nested_repeat(d) + ent()), label=lab('REPEATs'))
+        add('%d nested ALIASes' % d, 'function body', wrap(nested_alias(d) + ent()), label=lab('ALIASes'))
+        add('%d nested IFs' % d, 'function body', wrap(nested_if(d) + ent()), label=lab('IFs'))
+        add('%d nested parentheses' % d, 'expression', wrap(nested_parens(d) + ent()), label=lab('parentheses'))
+        add('%d nested aggregate initializers' % d, 'expression', wrap(nested_aggr_init(d) + ent()), label=lab('aggregate initializers'))
+        add('%d nested aggregate types' % d, 'type', nested_brackets(d), label=lab('aggregate types'))
+        add('%d nested remarks' % d, 'between declarations', wrap(nested_remark(d) + '\n' + ent()), label=lab('remarks'))
     for d in (1000, 5000):
-        add('%d nested parentheses' % d, 'expression', wrap(nested_parens(d) + ent()))
-        add('%d nested remarks' % d, 'between declarations', wrap(nested_remark(d) + '\n' + ent()))
-        add('%d unclosed parentheses' % d, 'expression', wrap(fn('  i := %s1;' % ('(' * d)) + ent()))
+        add('%d nested parentheses' % d, 'expression', wrap(nested_parens(d) + ent()), label='1000 or more nested parentheses')
+        add('%d nested remarks' % d, 'between declarations', wrap(nested_remark(d) + '\n' + ent()), label='1000 or more nested remarks')
+        add('%d unclosed parentheses' % d, 'expression', wrap(fn('  i := %s1;' % ('(' * d)) + ent()), label='1000 or more unclosed parentheses')
     # many diagnostics
     for n in (99, 100, 101, 1000):
         add('%d errors in one file' % n, 'undefined attribute types', n_errors(n))
@@ -193,4 +222,24 @@ def shapes(tier, warnings=('all', 'none')):
     add('-b', 'option', n_errors(150), ALL, ('-b',))
     add('unknown option -Z', 'option', wrap(ent()), ALL, ('-Z',))
     add('missing input file', 'option', None, ALL, ())
+    # constructs behind open findings of the generators / resolver (the randomized workload masks them, see c06.py MASKS)
+    add('REPEAT without control', 'function body', wrap(fn('  REPEAT;\n    i := i + 1;\n    IF i > 3 THEN ESCAPE; END_IF;\n  END_REPEAT;') + ent()))
+    two = ('SCHEMA a;\nFUNCTION fa(n : INTEGER) : INTEGER;\n  RETURN (n);\nEND_FUNCTION;\nENTITY ea;\n  x : INTEGER;\nEND_ENTITY;\nEND_SCHEMA;\n'
+           'SCHEMA b;\n%s\nENTITY eb;\n  y : INTEGER;\nEND_ENTITY;\nEND_SCHEMA;\n')
+    add('interface item renamed with AS', 'USE FROM', two % 'USE FROM a (ea AS ex);')
+    add('interface item renamed with AS', 'REFERENCE FROM', two % 'REFERENCE FROM a (ea AS ex, fa AS fx);')
+    add('interface item not renamed', 'USE FROM', two % 'USE FROM a (ea);')
+    add('interface item not renamed', 'REFERENCE FROM', two % 'REFERENCE FROM a (ea, fa);')
+    add('two schemas using each other', 'USE FROM + defined type renaming the other schema\'s type',
+        'SCHEMA a;\nUSE FROM b (tb2);\nTYPE ta = REAL;\nEND_TYPE;\nTYPE ta2 = tb2;\nEND_TYPE;\nENTITY ea;\n  x : ta;\nEND_ENTITY;\nEND_SCHEMA;\n'
+        'SCHEMA b;\nUSE FROM a (ta);\nTYPE tb = ta;\nEND_TYPE;\nTYPE tb2 = INTEGER;\nEND_TYPE;\nENTITY eb;\n  y : tb;\nEND_ENTITY;\nEND_SCHEMA;\n')
+    add('subtype cycle', 'attribute looked up through the cycle',
+        wrap('ENTITY a\n  SUBTYPE OF (b);\n  x : INTEGER;\nEND_ENTITY;\nENTITY b\n  SUBTYPE OF (a);\n  y : INTEGER;\nEND_ENTITY;\n'
+             'ENTITY c\n  SUBTYPE OF (b);\n  z : INTEGER;\nDERIVE\n  SELF\\a.x : INTEGER := 1;\nEND_ENTITY;\n'))
+    add('subtype cycle', 'two entities', wrap('ENTITY a SUBTYPE OF (b);\n  x : INTEGER;\nEND_ENTITY;\nENTITY b SUBTYPE OF (a);\n  y : INTEGER;\nWHERE\n  wr1 : x > 0;\nEND_ENTITY;\n'))
+    add('subtype cycle', 'entity under itself', wrap('ENTITY a SUBTYPE OF (a);\n  x : INTEGER;\nEND_ENTITY;\n'))
+    add('select cycle', 'two select types', wrap('TYPE s1 = SELECT (s2);\nEND_TYPE;\nTYPE s2 = SELECT (s1);\nEND_TYPE;\n' + ent()))
+    add('type cycle', 'two defined types', wrap('TYPE t1 = t2;\nEND_TYPE;\nTYPE t2 = t1;\nEND_TYPE;\n' + ent()))
+    add('USE FROM itself', 'interface', wrap('USE FROM p;\n' + ent()))
+    add('USE FROM unknown schema', 'interface', wrap('USE FROM nowhere (x);\n' + ent()))
     return S
